@@ -433,6 +433,8 @@ class Executor:
         self.faddr = {}
         self.encoded = set()
         self.called = set()
+        self.axiom_div = False  # 128-bit udiv/urem as fresh (q, r) constrained by a = q*b + r, r < b
+        self._divcache = {}
         self.uf_mul = False    # abstract 64x64->128 products by an uninterpreted function (sound: equal for every interpretation)
         self.uf_terms = []
         self.overrides = {}    # defined functions replaced by a contract (assume-guarantee)
@@ -910,6 +912,23 @@ class Executor:
                 fname = fr.fn.name
 
                 def ok(s):
+                    if self.axiom_div and op in ('udiv', 'urem') and w >= 128:
+                        # quotient and remainder as fresh variables pinned by the division identity a = q*b + r, r < b
+                        # (evaluated without wrap-around at double width): the definition of truncating unsigned
+                        # division for b != 0, and far cheaper than a bit-blasted 128-bit divider
+                        key = (a.get_id(), b.get_id())
+                        if key not in self._divcache:
+                            k = len(self._divcache)
+                            q, r_ = z3.BitVec('divq%d' % k, w), z3.BitVec('divr%d' % k, w)
+                            wide = lambda x: z3.ZeroExt(w, x)
+                            self._divcache[key] = (q, r_, [wide(q) * wide(b) + wide(r_) == wide(a), z3.ULT(r_, b)])
+                        q, r_, cons = self._divcache[key]
+                        have = {x.get_id() for x in s.pc if hasattr(x, 'get_id')}
+                        for c in cons:
+                            if c.get_id() not in have:
+                                s.pc.append(c)
+                        s.frames[-1].regs[dst] = q if op == 'udiv' else r_
+                        return
                     r = {'udiv': lambda: z3.UDiv(a, b), 'sdiv': lambda: a / b, 'urem': lambda: z3.URem(a, b), 'srem': lambda: z3.SRem(a, b)}[op]()
                     s.frames[-1].regs[dst] = simp(r)
 
@@ -1261,9 +1280,18 @@ def _memcmp(ex, st, a, work):
 
 def _strlen(ex, st, a, work):
     s = st.mem.read_cstr(st, a[0])
-    if s is None:
-        raise Inconclusive('strlen of a non-concrete string')
-    return bv(len(s), 64)
+    if s is not None:
+        return bv(len(s), 64)
+    # symbolic bytes: fork on the position of the first NUL (reading past the object ends the path as out of bounds)
+
+    def at(k):
+        def f(s_):
+            if k > 160:
+                raise Inconclusive('strlen: no NUL within 160 bytes')
+            b = s_.mem.load(s_, a[0] + bv(k, 64), 1)
+            return ex.fork_value(s_, work, b == bv(0, 8), lambda s2: bv(k, 64), at(k + 1))
+        return f
+    return at(0)(st)
 
 
 def _strcmp(ex, st, a, work):
